@@ -37,6 +37,41 @@ pred HuffInv(z) :=
   && z.freq[_R] <= 32768
 
 # ---------------------------------------------------------------------------
+# initial tree (canonical StartHuff): every symbol has weight 1, leaves in
+# symbol order, internal nodes pair up consecutive nodes; this establishes
+# HuffInv from nothing (so the invariant is not vacuous)
+# ---------------------------------------------------------------------------
+
+# weight bound by level while the initial tree is built (314 leaves of weight 1)
+pred InitBound(m) := ite(m < 314, 1, ite(m < 471, 2, ite(m < 549, 4, ite(m < 588, 8, ite(m < 608, 16, ite(m < 618, 32, ite(m < 623, 64, ite(m < 625, 128, ite(m < 626, 256, 512)))))))))
+
+func lzhuf.newLZHUFF() (z)
+  props C08 C06 C07 C03
+  ensures fresh: z != nil
+  ensures canonical-root: z.freq[_T] == 65535 && z.prnt[_R] == 0
+  ensures s-positive: forall i :: 0 <= i && i < _T ==> 1 <= z.freq[i]
+  ensures s-sorted: Sorted(z)
+  ensures s-son: forall i :: 0 <= i && i < _T ==> SonOK(z, i)
+  ensures s-son-prnt: forall i :: 0 <= i && i < _T ==> z.prnt[z.son[i]] == i && (Internal(z, i) ==> z.prnt[z.son[i] + 1] == i)
+  ensures s-prnt-son: forall k :: 0 <= k && k < _R ==> k < z.prnt[k] && z.prnt[k] <= _R && (z.son[z.prnt[k]] == k || z.son[z.prnt[k]] + 1 == k)
+  ensures s-leafpos: forall k :: _T <= k && k < _T + _NumChar ==> 0 <= z.prnt[k] && z.prnt[k] < _T && z.son[z.prnt[k]] == k
+  ensures s-sums: forall i :: 0 <= i && i < _T && Internal(z, i) ==> SumAt(z, i)
+  ensures s-cap: z.freq[_R] <= 32768
+  ensures inv: HuffInv(z)
+  ensures canonical-leaves: (forall m :: 0 <= m && m < _NumChar ==> z.freq[m] == 1 && z.son[m] == m + _T) && (forall k :: _T <= k && k < _T + _NumChar ==> z.prnt[k] == k - _T)
+  ensures canonical-internal: forall m :: _NumChar <= m && m < _T ==> z.son[m] == 2 * (m - _NumChar) && z.prnt[2 * (m - _NumChar)] == m && z.prnt[2 * (m - _NumChar) + 1] == m
+  loop 0 invariant i: 0 <= i && i <= _NumChar && z != nil
+  loop 0 invariant leaves: forall m :: 0 <= m && m < i ==> z.freq[m] == 1 && z.son[m] == m + _T
+  loop 0 invariant leafpos: forall k :: _T <= k && k < _T + i ==> z.prnt[k] == k - _T
+  loop 1 invariant ij: _NumChar <= j && j <= _T && i == 2 * (j - _NumChar) && z != nil
+  loop 1 invariant leaves: forall m :: 0 <= m && m < _NumChar ==> z.freq[m] == 1 && z.son[m] == m + _T
+  loop 1 invariant leafpos: forall k :: _T <= k && k < _T + _NumChar ==> z.prnt[k] == k - _T
+  loop 1 invariant internal: forall m :: _NumChar <= m && m < j ==> z.son[m] == 2 * (m - _NumChar) && z.freq[m] == z.freq[2 * (m - _NumChar)] + z.freq[2 * (m - _NumChar) + 1]
+  loop 1 invariant parents: forall k :: 0 <= k && k < i ==> z.prnt[k] == _NumChar + div(k, 2)
+  loop 1 invariant sorted: forall a, b :: 0 <= a && a <= b && b < j ==> z.freq[a] <= z.freq[b]
+  loop 1 invariant bound: forall m :: 0 <= m && m < j ==> 1 <= z.freq[m] && z.freq[m] <= InitBound(m)
+
+# ---------------------------------------------------------------------------
 # bit reader
 # ---------------------------------------------------------------------------
 
